@@ -354,7 +354,7 @@ row(props=["C06"], func=RL + "EnterQualifiedNameList", params=["s", "ctx"], kind
     expr='call("strings.Split", GetText(q), ".")[0]', what="a thrown type references the first segment of its name")
 row(props=["C06"], func=RL + "EnterCatchType", params=["s", "ctx"], kind="callarg", callee=ADDF, arg=1, field="Name", each={"as": "q"},
     expr='call("strings.Split", GetText(q), ".")[0]', what="a caught type references the first segment of its name")
-row(props=["C01"], func=FL + "getMethodMapName", params=["method"], kind="depends", fields={"Name": "", "Position.StartLine": "", "Position.StartLinePosition": ""},
+row(props=["C01", "C02"], func=FL + "getMethodMapName", params=["method"], kind="depends", fields={"Name": "", "Position.StartLine": "", "Position.StartLinePosition": ""},
     what="two declarations never share an entry of the per-class method table: the key identifies a declaration by name and start position (line and column)")
 row(props=["C12"], func=API + "(JavaAPIListener).EnterAnnotation", params=["s", "ctx"], kind="callarg", callee=API + "addApiMethod", arg=0, total=2, index=1, each={"as": "pair"},
     expr='call("strings.Trim", %s, "{}")' % PAIRTXT, what="method= names the verb in plain or in array form: method = RequestMethod.GET and method = {RequestMethod.GET}")
@@ -464,6 +464,15 @@ row(props=["C02"], func=FL + "(JavaFullListener).EnterCreator", params=["s", "ct
     expr="GetText(%s[len(%s) - 1])" % (IDS, IDS), what="a creation is recorded under the last identifier of the created name (type arguments are no part of it: new ArrayList<Map.Entry<K,V>>() creates an ArrayList)")
 row(props=["C02"], func=FL + "BuildMethodCallMethod", params=["call", "callee", "targetType", "ctx"], kind="callarg", callee=FL + "WarpTargetFullType", arg=0,
     expr="targetType", what="the receiver is resolved under the text it was written with (an unqualified call is recognised by its whole text; cutting that text at a '<' of its arguments loses the call)")
+
+# ------------------------------------------------------------------ the text that is analysed is the text that was given
+NIS = "github.com/antlr/antlr4/runtime/Go/antlr/v4.NewInputStream"
+row(props=["C19"], func="pkg/infrastructure/ast/ast_groovy.ProcessGroovyString", params=["code"], kind="callarg", callee=NIS, arg=0, expr="code",
+    what="the Gradle script reaches the lexer as it was read (what looks like a comment may stand inside a string)")
+row(props=["C01", "C02", "C09"], func="pkg/infrastructure/ast/ast_java.ProcessJavaString", params=["code"], kind="callarg", callee=NIS, arg=0, expr="code",
+    what="the Java text reaches the lexer as it was given")
+row(props=["C20"], func="pkg/application/analysis/pyapp.ProcessPythonString", params=["code"], kind="callarg", callee=NIS, arg=0, expr="code",
+    what="the Python text reaches the lexer as it was given")
 
 json.dump({"e5": rows}, open(os.path.join(os.path.dirname(os.path.dirname(os.path.abspath(__file__))), "spec", "e5.json"), "w"), indent=1, ensure_ascii=False)
 print(len(rows), "rows")
